@@ -35,7 +35,7 @@ def run(chk):
     k = server_hist.Knobs(n_ops=30 if chk.thorough else 24, refuse=0.05, actions=0.15)
     k.w.update({'enter': 6, 'emit': 7, 'leave': 3, 'close_room': 1.5, 'rooms': 3, 'session': 0.3, 'junk': 0.1,
                 'binary': 0.2, 'ack': 0.3, 'event': 1, 'emit_cb': 0.5})
-    hs = [server_hist.gen_history(rng, k) for _ in range(n)]
+    hs = srvcommon.load_corpus('c03') + [server_hist.gen_history(rng, k) for _ in range(n)]
     bad = srvcommon.run_histories(chk, 'c03', hs, nontrivial=nontrivial)
     report(chk, 'c03', hs, bad)
 
